@@ -75,3 +75,11 @@ func init() {
 		Edits: []edit{{"segment/writer.go", "	if len(e.Data) > MaxEntrySize {\n		return ErrTooBig\n	}\n\n	fh := frameHeader{\n		typ: FrameEntry,\n		len: uint32(len(e.Data)),\n	}\n	bufOffset, err := w.appendFrame(fh, e.Data)\n	if err != nil {\n		return err\n	}",
 			"	fh := frameHeader{\n		typ: FrameEntry,\n		len: uint32(len(e.Data)),\n	}\n	bufOffset, err := w.appendFrame(fh, e.Data)\n	if err != nil {\n		return err\n	}\n	if len(e.Data) > MaxEntrySize {\n		return ErrTooBig\n	}"}}})
 }
+
+func init() {
+	addMutant(mutant{Name: "revert/F14-plain-bolt-handle", Fire: []string{"ACC-06"},
+		Edits: []edit{{"metadb/metadb.go", "	db atomic.Pointer[bbolt.DB]\n}", "	db atomic.Pointer[bbolt.DB]\n	closing bool\n}"},
+			{"metadb/metadb.go", "	bb := db.db.Swap(nil)\n	if bb == nil {\n		return nil\n	}\n	return bb.Close()", "	db.closing = true\n	bb := db.db.Swap(nil)\n	if bb == nil {\n		return nil\n	}\n	return bb.Close()"},
+			{"metadb/metadb.go", "func (db *BoltMetaDB) GetStable(key []byte) ([]byte, error) {\n	bb := db.db.Load()\n	if bb == nil {", "func (db *BoltMetaDB) GetStable(key []byte) ([]byte, error) {\n	bb := db.db.Load()\n	if bb == nil || db.closing {"}},
+		Note: "a plain flag written by Close and read by GetStable: same race shape as the original db field"})
+}
